@@ -46,6 +46,9 @@ MUTANTS = [
     ("c14-listing-cached-by-path", "C14", "stringify_asm/implementations/null_disassembler.py",
      "    def disassemble(self, input_file: str) -> str:\n        with open(input_file, \"r\", encoding=\"utf-8\") as f:\n            return f.read()",
      "    _cache: dict = {}\n\n    def disassemble(self, input_file: str) -> str:\n        if input_file not in self._cache:\n            with open(input_file, \"r\", encoding=\"utf-8\") as f:\n                self._cache[input_file] = f.read()\n        return self._cache[input_file]", "detect"),
+    ("c14-descriptor-leaked-per-operation", "C14", "jasm_regex/yaml2regex.py",
+     "        with open(file=file, mode=\"r\", encoding=\"utf-8\") as file_descriptor:\n            return yaml.load(stream=file_descriptor.read(), Loader=yaml.SafeLoader)",
+     "        file_descriptor = open(file=file, mode=\"r\", encoding=\"utf-8\")\n        Yaml2Regex._keep = getattr(Yaml2Regex, \"_keep\", []) + [file_descriptor]\n        return yaml.load(stream=file_descriptor.read(), Loader=yaml.SafeLoader)", "detect"),
     # ------------------------------------------------------------------ C17
     ("c17-listing-enoent-swallowed", "C17", "stringify_asm/implementations/null_disassembler.py",
      "        with open(input_file, \"r\", encoding=\"utf-8\") as f:\n            return f.read()",
